@@ -508,11 +508,8 @@ func runMaintPassCase(seed uint64, k, idx int) {
 		cur[mpAddrTok(w.to)] = true
 	}
 	flush()
-	if curKind == "refresh" {
-		toks = append(toks, fmt.Sprintf("break:%d", curIdx))
-	} else {
-		toks = append(toks, "done")
-	}
+	// (where the pass ended is not observable by itself: a refresh without a single seed writes nothing; what is
+	// observable - further ping rounds and refreshes, or their absence - is in the list)
 	snap1, _ := s.VerifTableSnapshot()
 	var after []string
 	for _, v := range snap1 {
